@@ -603,6 +603,14 @@ class ExprMixin:
         if sv.pt in ("set", "frozenset"):
             return sv
         if sv.pt in ("list", "tuple"):
+            if sv.py and sv.py[0] == "dkeys" and sv.py[1].t is not None:
+                # set(d.keys()): membership in the key set is membership in the dict.  A local fact (a global axiom on every
+                # shas(dkeys(d), k) changes which unrelated obligations the solvers discharge)
+                d_ = self.box(sv.py[1])
+                k_ = self.bv("ksk")
+                res = v.set_of_seq(sv.t)
+                st.facts.append(z3.ForAll([k_], v.has(res, k_) == v.dhas(d_, k_), patterns=[v.has(res, k_)]))
+                return SV(res, "set")
             return SV(v.set_of_seq(sv.t), "set")
         if sv.pt == "pylist":
             cur = v.sempty
